@@ -2,7 +2,8 @@
 on the real Callback implementation with a lockstep model."""
 from engine.driver import ASAN_FLAGS, HarnessError
 
-ARITIES = [(0, 1), (2, 3), (4, 5), (6, 7), (8, 8)]     # the library has one emit/connect overload per parameter count 0..8
+ARITIES = [(0, 1), (2, 3), (4, 5), (6, 7), (8, 8), (1, 1)]     # equal arities: the same slots serve both signals
+#     # the library has one emit/connect overload per parameter count 0..8
 
 def build(ctx, arity=(0, 1)):
     srcs = [ctx.verif("harness/callback_h.cpp"), ctx.repo("src/Callback.cpp"), ctx.repo("src/Memory.cpp"), ctx.repo("src/Debug.cpp")]
@@ -48,6 +49,9 @@ def run(ctx):
     small = dict(emitters=1, signals=2, listeners=2, slots=1, top=3 if ctx.tier == "quick" else 4, reactions=2, nest=2)
     for ar in ARITIES[1:]:
         ctx.run_shards(build(ctx, ar), args_of(small), label="callback arities %d/%d " % ar + " ".join("%s=%s" % kv for kv in sorted(small.items())))
+    # one slot connected to two signals of one emitter (only possible when both signals have the same parameter list)
+    shared = dict(emitters=1, signals=2, listeners=2, slots=1, top=4 if ctx.tier == "quick" else 5, reactions=2, nest=3)
+    ctx.run_shards(build(ctx, (1, 1)), args_of(shared), label="callback shared slots " + " ".join("%s=%s" % kv for kv in sorted(shared.items())))
     c = ctx.counters
     cov = {"states": int(c.get("executions", 0)), "transitions": int(c.get("top_level_steps", 0) + c.get("reactions", 0)),
            "traces_validated_against_impl": int(c.get("executions", 0)),
